@@ -320,6 +320,31 @@ def run_separator(unit, stmts, cur_id, text):
                     p += 1
                 ev.env[cur_id] = p + 4096
                 return 0
+            if name in ("strcspn", "strspn", "strchr", "strlen", "strpbrk", "strchrnul", "__builtin_strchr", "__builtin_strlen", "__builtin_strcspn", "__builtin_strspn"):
+                # the C string scans, on the probe text
+                a0 = ev.ev(args[0])
+                if not isinstance(a0, int) or not 4096 <= a0 <= 4096 + len(text):
+                    raise FD.Unknown("%s of %r in separator skipping" % (name, a0), n)
+                rest = text[a0 - 4096:]
+                nm_ = name.replace("__builtin_", "")
+                if nm_ == "strlen":
+                    return len(rest)
+                if nm_ in ("strchr", "strchrnul"):
+                    c_ = ev.ev(args[1]) & 0xff
+                    i_ = rest.find(chr(c_)) if c_ else len(rest)
+                    return a0 + i_ if i_ >= 0 else (a0 + len(rest) if nm_ == "strchrnul" else 0)
+                set_ = A.string_literal(A.strip_casts(args[1]))
+                if set_ is None:
+                    set_ = A.string_literal(args[1])
+                if set_ is None:
+                    raise FD.Unknown("%s with a computed character set" % name, n)
+                i_ = 0
+                if nm_ == "strpbrk":
+                    hits = [j for j, ch in enumerate(rest) if ch in set_]
+                    return a0 + hits[0] if hits else 0
+                while i_ < len(rest) and ((rest[i_] in set_) == (nm_ == "strspn")):
+                    i_ += 1
+                return i_
             raise FD.Unknown("call to %s in separator skipping" % name, n)
         if k == "BinaryOperator" and n.get("opcode") == "&":
             enum = [y["referencedDecl"]["name"] for y in A.walk(A.kids(n)[1]) if y.get("kind") == "DeclRefExpr" and (y.get("referencedDecl") or {}).get("kind") == "EnumConstantDecl"]
